@@ -138,6 +138,10 @@ func (r *nativeReplayer) run(entry string, bounds map[string]int64, inputs []Non
 		o.timedOut = true
 	}
 	for _, ln := range strings.Split(o.raw, "\n") {
+		ln = strings.TrimRight(ln, "\r")
+		if i := strings.Index(ln, "VERIF-"); i > 0 {
+			ln = ln[i:] // the code under test may have written terminal control sequences in front of our line
+		}
 		switch {
 		case strings.HasPrefix(ln, "VERIF-REACH: "):
 			o.reached = append(o.reached, strings.TrimPrefix(ln, "VERIF-REACH: "))
